@@ -3,3 +3,5 @@ package checks
 import "encoding/base64"
 
 func base64Std(b []byte) string { return base64.StdEncoding.EncodeToString(b) }
+
+func hexDecode(s string) ([]byte, error) { return hexDecodeString(s) }
